@@ -165,6 +165,21 @@ func zzFixtureTooLate(ctx context.Context, due time.Time) bool {
 	return ok && deadline.Before(due)
 }
 `, "zzFixtureTooLate"},
+	{"R224", "zz_fixture_r224.go", `package bpmn
+
+import "sync"
+
+type zzFixtureNode struct {
+	*wiring
+	raised sync.Once
+}
+
+func (n *zzFixtureNode) zzFixtureLoop(ch chan int) {
+	for range ch {
+		n.raised.Do(func() { n.tracer.Send(ErrorTrace{}) })
+	}
+}
+`, "zzFixtureLoop"},
 }
 
 // checkFixtures runs the zero-expected rules among ids on the fixture program and returns one obligation per rule.
